@@ -29,7 +29,16 @@ class StringValidator:
         validation_issues = []
         number_open_parentheses = hed_string.count('(')
         number_closed_parentheses = hed_string.count(')')
-        if number_open_parentheses != number_closed_parentheses:
+        # Equal counts are not enough: 'Red),(Blue' closes a group that was never opened (the parser rejects it).
+        depth = 0
+        for character in hed_string:
+            if character == '(':
+                depth += 1
+            elif character == ')':
+                depth -= 1
+                if depth < 0:
+                    break
+        if depth != 0:
             validation_issues += ErrorHandler.format_error(ValidationErrors.PARENTHESES_MISMATCH,
                                                            opening_parentheses_count=number_open_parentheses,
                                                            closing_parentheses_count=number_closed_parentheses)
